@@ -78,8 +78,13 @@ func (r *receiver) acceptable(segSeq seqnum.Value, segLen seqnum.Size) bool {
 // 并且更新接收窗口的指标 rcvAcc
 func (r *receiver) getSendParams() (rcvNxt seqnum.Value, rcvWnd seqnum.Size) {
 	// Calculate the window size based on the current buffer size.
+	// The peer learns the window in units of 1<<rcvWndScale only, so the
+	// edge up to which segments are acceptable must be the rounded one that
+	// is advertised: with the exact one, a window of a few bytes is
+	// announced as closed yet lets a whole segment from beyond the
+	// advertised edge in (segments are not trimmed to the window).
 	n := r.ep.receiveBufferAvailable()
-	acc := r.rcvNxt.Add(seqnum.Size(n))
+	acc := r.rcvNxt.Add(seqnum.Size(n) >> r.rcvWndScale << r.rcvWndScale)
 	if r.rcvAcc.LessThan(acc) {
 		r.rcvAcc = acc
 	}
